@@ -236,6 +236,18 @@ func TestVerifC02(t *testing.T) {
 			r.Count("blobs_with_same_length_sibling", len(twins))
 			// read faults
 			cl.F = simbe.Faults{CorruptRead: rate, Budget: budget}
+			downMode := tp.Choose(4) == 0
+			if downMode {
+				// one damaged download, and from then on the backend is down: every further download fails
+				cl.F = simbe.Faults{CorruptRead: 1000, Budget: 1}
+				cl.Script = func(op string, _ backend.Handle, _ int) *simbe.Forced {
+					if op == "Load" && s.Stats()["fault:load-corrupt"] >= 1 {
+						s.Count("fault:load-err-before")
+						return &simbe.Forced{Kind: "err-before"}
+					}
+					return nil
+				}
+			}
 			if withRetry {
 				// downloads also break off half-way or fail outright; the retry layer repeats them
 				cl.F.PartialRead = rate / 2
@@ -313,7 +325,7 @@ func TestVerifC02(t *testing.T) {
 							if fmt.Sprint(keys) != fmt.Sprint(truth[pk]) && s.Stats()["fault:load-misdirected"] == 0 {
 								r.Fail("content-address", "wrong-pack-listing", "ListPackHandles(%s) returned nil error and %d handles that differ from the %d blobs in the pack", pk[:8], len(keys), len(truth[pk]))
 							}
-						} else if nFaults() == fired0 && !(withCache && nFaults() > 0) {
+						} else if nFaults() == fired0 && !(withCache && nFaults() > 0) && !(downMode && nFaults() > 0) {
 							r.Fail("no-error", "error-without-fault", "ListPackHandles failed without a corrupted read: %v", lerr)
 						}
 						continue
@@ -332,6 +344,9 @@ func TestVerifC02(t *testing.T) {
 					clean := nFaults() == fired0
 					if withCache {
 						clean = nFaults() == 0
+					}
+					if downMode && nFaults() > 0 {
+						clean = false // the backend is down: any failure is justified (also one answered by the retry layer's circuit breaker)
 					}
 					if err != nil && clean {
 						r.Fail("no-error", "error-without-fault", "%s(%s %v) failed although no read was corrupted: %v", what, it.kind, it.id.Str(), err)
